@@ -1,7 +1,7 @@
 import TracklibVerif.Model.SimplifyTrack
 import TracklibVerif.Drv.Util
 /-! Driver handler for C16 (simplification), `Float` instantiation (`sqrt = Float.sqrt`, ARGMIN sentinel
-`1e300`). Floats are IEEE bit patterns. Commands:
+`+inf`, the code's `float('inf')` since 68863c7). Floats are IEEE bit patterns. Commands:
   dp <eps> <xs> <ys>            → kept indices `i,j,…` of the code's own run, then ` ` and every output
                                   reachable with another choice among equally far fixes (`;`-separated),
                                   or `err:recursion` when the recursion does not terminate
@@ -23,7 +23,7 @@ def mkTrack (xs ys : List Float) : List (Fix Float) :=
 
 def showIdx (l : List (Fix Float)) : String := showList (fun (p : Fix Float) => toString p.tag) l
 
-def big : Float := 1e300
+def big : Float := 1.0 / 0.0
 
 def optF (v : Float) : Option Float := if v.isNaN then none else some v
 def showOptF : Option Float → String
